@@ -166,10 +166,15 @@ class P(Property):
                 seen.add(c)
                 pick.append(c)
         # every boundary-value / long-run case plus a seeded sample of the rest
-        budget = 1500 if quick else 20000
-        if len(pick) > budget:
-            head = [c for c in pick if len(c.split()[2]) >= 8][:budget // 2]
-            pick = head + rng.sample(pick, budget - len(head))
+        budget = 1200 if quick else 20000
+        ps_pick = [c for c in pick if c.startswith('ps.dec')]
+        pi_pick = [c for c in pick if c.startswith('pi.dec')]
+        if len(ps_pick) > budget // 2:
+            ps_pick = rng.sample(ps_pick, budget // 2)
+        if len(pi_pick) > budget:
+            head = [c for c in pi_pick if len(c.split()[2]) >= 8][:budget // 2]
+            pi_pick = head + rng.sample(pi_pick, budget - len(head))
+        pick = pi_pick + ps_pick
         for c in pick:
             fam, size, h = c.split()
             b = [h[i:i + 2] for i in range(0, len(h), 2)]
@@ -194,6 +199,15 @@ class P(Property):
         for _ in range(2000 if quick else 200000):
             out.append('he ' + hx(rand_string(rng, rng.randint(3, 64))))
         out.append('he ' + hx(bytes(range(256))))
+        # all 3-symbol strings over an alphabet with every code length 5..30 (window bit != 0, bit + count > 8 states of put)
+        alpha = {}
+        for x in range(256):
+            alpha.setdefault(len(CODE[x]), x)
+        alpha = sorted(alpha.values()) + [0, 255, 97]
+        for a in alpha:
+            for b in alpha:
+                for c in alpha:
+                    out.append('he %02x%02x%02x' % (a, b, c))
         # --- Huffman decode: exhaustive short payloads
         out.append('hd -')
         for a in range(256):
@@ -261,12 +275,12 @@ class P(Property):
             mask = (1 << size) - 1
             vals = {0, 1, mask - 1, mask, mask + 1, mask + 126, mask + 127, mask + 128, mask + 129, 2 ** 63 - 1 + mask - 1,
                     2 ** 63 - 1 + mask, 2 ** 63 + mask, 2 ** 63 + mask + 1, U64 - 1, U64 - 2, 2 ** 62, 2 ** 62 - 1}
-            for p in (7, 8, 14, 15, 16, 21, 28, 31, 32, 35, 42, 49, 56, 62, 63):
+            for p in range(0, 64):
                 for d in (-1, 0, 1):
                     vals.add(2 ** p + d)
                     vals.add(2 ** p + mask + d)
-            for _ in range(20 if quick else 2000):
-                vals.add(rng.getrandbits(rng.choice([7, 14, 30, 62, 63, 64, 64])))
+            for _ in range(300 if quick else 5000):
+                vals.add(rng.getrandbits(rng.choice([7, 14, 21, 30, 45, 62, 63, 64, 64])))
             vals = sorted(v for v in vals if 0 <= v < U64)
             fl = sorted({0, (1 << (8 - size)) - 1, rng.getrandbits(8 - size) if size < 8 else 0})
             for v in vals:
@@ -297,7 +311,7 @@ class P(Property):
             out.append('pi.dec %d -' % size)
             for a in range(256):
                 out.append('pi.dec %d %02x' % (size, a))
-            if (not quick) or size in (1, 5, 8):
+            if True:
                 for a in range(65536):
                     out.append('pi.dec %d %04x' % (size, a))
         # --- string literals
@@ -358,11 +372,12 @@ class P(Property):
         for k in range(8, 23):
             for d in (-1, 0, 1):
                 size = 2 + i % 7
-                out.append('ps.rt %d %d %d' % (size, 2 ** k + d, i))
+                fl = 0 if i % 3 == 0 else ((1 << (8 - size)) - 1 if i % 3 == 1 else (i * 7) % (1 << (8 - size)))
+                out.append('ps.rt %d %d %d %d' % (size, 2 ** k + d, i, fl))
                 i += 1
         for size in range(2, 9):
             for ln in (0, 1, 126, 127, 128, 1023):
-                out.append('ps.rt %d %d %d' % (size, ln, 100 + size))
+                out.append('ps.rt %d %d %d %d' % (size, ln, 100 + size, (ln * 5 + 1) % (1 << (8 - size))))
         return out
 
     # ------------------------------------------------------------------ comparison
@@ -394,12 +409,16 @@ class P(Property):
         if fam == 'hd.blk':
             a, b = out.split(), spec.split()
             return len(a) == 4 and len(b) == 5 and a[0] == b[0] and a[1] == b[1] and a[3] == b[3]
+        # the property says "rejects": where the spec says error, ANY error kind of the implementation
+        # satisfies it (kinds are still compared between implementation and model)
+        if spec.startswith('err'):
+            if out.startswith('err'):
+                return True
+            if fam in ('hd', 'ps.dec', 'ps.decc'):
+                return self.known_class_hit(case, out, spec)
+            return False
         if fam == 'hd':
-            if spec.startswith('err'):
-                return out.startswith('err') or self.known_class_hit(case, out, spec)
             return out == spec
-        if fam in ('ps.dec', 'ps.decc') and spec.startswith('err huffman'):
-            return out.startswith('err huffman') or self.known_class_hit(case, out, spec)
         return spec_match(out, spec)
 
     def extra_checks(self, ctx):
